@@ -79,6 +79,9 @@ func (g *gen) entryEnv(st *state) *env {
 }
 
 func (g *gen) lookupCommon(e *env, name string) (sval, bool) {
+	if srt, ok := fileGhosts[name]; ok {
+		return sval{t: g.heapVar(e.st, "GHOST."+name, srt), sort: srt, gt: sortGoType(srt)}, true
+	}
 	if g.con != nil {
 		for _, gh := range g.con.Ghosts {
 			if gh == name {
